@@ -232,7 +232,7 @@ package matcher
 //@   let j = firstOK(om.options, 0, args, domOf(om.index), valOf(om.index), fieldHeap(om.options[0].Value), fieldHeap(om.options[0].ValueSetFromEnv), domOf(c.ExcludedOpts))
 //@   let k = scanPos(args, 0, domOf(om.index), valOf(om.index), fieldHeap(om.options[0].Value), om.options[firstOK(om.options, 0, args, domOf(om.index), valOf(om.index), fieldHeap(om.options[0].Value), fieldHeap(om.options[0].ValueSetFromEnv), domOf(c.ExcludedOpts))])
 //@   ensures none: (off || j < 0) ==> !result0 && result1 == args && unchanged(c.Opts) && unchanged(c.ExcludedOpts)
-//@   ensures some: !off && j >= 0 ==> result0
+//@   ensures some: !off && j >= 0 ==> result0 && j < len(om.options)
 //@   ensures consumed: !off && j >= 0 && k >= 0 ==> result1 == tokRem(args, k, D, V, HV, opts[j]) &&
 //@       c.Opts[opts[j]] == old(c.Opts[opts[j]]) ++ seq(tokVal(args, k, D, V, HV, opts[j])) && frame(c.Opts[opts[j]]) && (opts[j] in c.Opts)
 //@   ensures exclude-only-nonconsuming: !off && j >= 0 && k >= 0 ==> unchanged(c.ExcludedOpts)
@@ -287,7 +287,9 @@ package matcher
 //@   ensures bound-dom: ok0 ==> domOf(c.Opts) == grpOD(opts, args, D, V, HV, ENV, EX0, OD0)
 //@   ensures bound-val: ok0 ==> valOf(c.Opts) == grpOV(opts, args, D, V, HV, ENV, EX0, OD0, OV0)
 //@   ensures frame: frameMap(c.Opts) && frameMap(c.ExcludedOpts)
+//@   ensures keys: forall k *container.Container :: (k in c.Opts) && !old(k in c.Opts) ==> k != nil
 //@   loop 1 invariant st: !rej && frameMap(c.Opts) && frameMap(c.ExcludedOpts) && ok0
+//@   loop 1 invariant keys: forall k *container.Container :: (k in c.Opts) && !old(k in c.Opts) ==> k != nil
 //@   loop 1 invariant rem: grpRem(opts, nargs, D, V, HV, ENV, domOf(c.ExcludedOpts)) == grpRem(opts, args0, D, V, HV, ENV, EX0)
 //@   loop 1 invariant ex: grpEX(opts, nargs, D, V, HV, ENV, domOf(c.ExcludedOpts)) == grpEX(opts, args0, D, V, HV, ENV, EX0)
 //@   loop 1 invariant od: grpOD(opts, nargs, D, V, HV, ENV, domOf(c.ExcludedOpts), domOf(c.Opts)) == grpOD(opts, args0, D, V, HV, ENV, EX0, OD0)
@@ -301,6 +303,7 @@ package matcher
 //@       ((k in pc.Args) <==> (old(k in pc.Args) || (k in o.Args)))
 //@   ensures opts: forall k *container.Container :: pc.Opts[k] == ((k in o.Opts) ? old(pc.Opts[k]) ++ o.Opts[k] : old(pc.Opts[k])) &&
 //@       ((k in pc.Opts) <==> (old(k in pc.Opts) || (k in o.Opts)))
+//@   ensures frame: frameMap(pc.Args, pc.Opts)
 //@   ensures source-untouched: domOf(o.Args) == old(domOf(o.Args)) && valOf(o.Args) == old(valOf(o.Args)) && domOf(o.Opts) == old(domOf(o.Opts)) && valOf(o.Opts) == old(valOf(o.Opts))
 //@   loop 1 invariant done: forall k *container.Container :: pc.Args[k] == (iterdone(k) ? old(pc.Args[k]) ++ o.Args[k] : old(pc.Args[k])) &&
 //@       ((k in pc.Args) <==> (old(k in pc.Args) || iterdone(k)))
@@ -311,6 +314,7 @@ package matcher
 //@   loop 2 invariant done: forall k *container.Container :: pc.Opts[k] == (iterdone(k) ? old(pc.Opts[k]) ++ o.Opts[k] : old(pc.Opts[k])) &&
 //@       ((k in pc.Opts) <==> (old(k in pc.Opts) || iterdone(k)))
 //@   loop 2 invariant sub: forall k *container.Container :: iterdone(k) ==> old(k in o.Opts)
+//@   loop 2 invariant frame2: frameMap(pc.Args, pc.Opts)
 //@   loop 2 invariant frame: domOf(o.Args) == old(domOf(o.Args)) && valOf(o.Args) == old(valOf(o.Args)) && domOf(o.Opts) == old(domOf(o.Opts)) && valOf(o.Opts) == old(valOf(o.Opts))
 
 // --- the Matcher interface (C01, C02, C09): every matcher is a function of (matcher, args, options-ended flag) ---------
@@ -319,7 +323,7 @@ package matcher
 // bindings are given as the whole content of the two maps afterwards.
 //@ pure static func tableWF(idx map[string]*container.Container) bool = idx != nil && (forall n string :: (n in idx) ==> idx[n] != nil)
 //@ pure static opaque func matcherWF(m Matcher) bool =
-//@     isType(m, "*arg") ? asType(m, "*arg") != nil :
+//@     isType(m, "*arg") ? (asType(m, "*arg") != nil && asType(m, "*arg").arg != nil) :
 //@     isType(m, "*opt") ? (asType(m, "*opt") != nil && asType(m, "*opt").theOne != nil && tableWF(asType(m, "*opt").index)) :
 //@     isType(m, "*options") ? (asType(m, "*options") != nil && tableWF(asType(m, "*options").index) &&
 //@         (forall i int :: 0 <= i && i < len(asType(m, "*options").options) ==> asType(m, "*options").options[i] != nil)) :
@@ -366,3 +370,4 @@ package matcher
 //@   ensures opts-bound: result0 ==> domOf(c.Opts) == mOptsD(this, args, old(c.RejectOptions)) && valOf(c.Opts) == mOptsV(this, args, old(c.RejectOptions))
 //@   ensures frame: c.Args == old(c.Args) && c.Opts == old(c.Opts) && c.ExcludedOpts == old(c.ExcludedOpts) &&
 //@       frameMap(c.Args, c.Opts) && frameMap(c.ExcludedOpts) && frame(c.RejectOptions)
+//@   ensures keys: forall k *container.Container :: ((k in c.Args) || (k in c.Opts)) ==> k != nil
